@@ -99,6 +99,25 @@ func slicing() {
 		probe("slice/str-lo"+is, func() string { return str[i:] })
 		probe("slice/str-hi"+is, func() string { return str[:i] })
 	}
+	// slices of slices whose offset and capacity differ from those of the backing array: the limits are
+	// the slice's own length and capacity, never those of the array behind it
+	backing := []Int{0, 1, 2, 3, 4, 5, 6, 7}
+	windows := []struct {
+		name string
+		w    []Int
+	}{{"2:4:5", backing[2:4:5]}, {"1:3", backing[1:3]}, {"3:3:6", backing[3:3:6]}, {":0:0", backing[:0:0]}, {"6:", backing[6:]}}
+	for _, win := range windows {
+		w := win.w
+		for i := 0; i <= 2; i++ {
+			for j := 0; j <= 8; j++ {
+				id := "/w=" + win.name + "/i=" + itoa(int64(i)) + "/j=" + itoa(int64(j))
+				probe("slice/window2"+id, func() string { x := w[i:j]; return itoa(int64(len(x))) + "," + itoa(int64(cap(x))) })
+				for k := 0; k <= 8; k++ {
+					probe("slice/window3"+id+"/k="+itoa(int64(k)), func() string { x := w[i:j:k]; return itoa(int64(len(x))) + "," + itoa(int64(cap(x))) })
+				}
+			}
+		}
+	}
 	var ns []Int
 	probe("slice/nil-0-0", func() string { x := ns[0:0]; return btoa(x == nil) })
 	probe("slice/nil-0-1", func() string { x := ns[0:idx(1)]; return btoa(x == nil) })
